@@ -242,20 +242,31 @@ impl LruManager {
         // An entry is in use iff it is linked into the list. The key bytes
         // cannot tell: an all-zero key is a valid key. Walk the list from
         // the LRU tail before touching any state, so that a file with
-        // out-of-range or cyclic links is rejected as a whole.
+        // out-of-range or cyclic links is rejected as a whole. unlink() and
+        // link_at_head() follow `prev` and the MRU head as well, so each
+        // `prev` must point back at the entry the walk came from and the
+        // MRU head must be the last entry reached.
+        let broken_links = || {
+            crate::StorageError::Cache(format!(
+                "invalid LRU file (broken entry links): {}",
+                path.display()
+            ))
+        };
         let mut linked = vec![false; entries.len()];
+        let mut prev = LRU_SENTINEL;
         let mut idx = header.lru_tail;
         while idx != LRU_SENTINEL {
-            match linked.get_mut(idx as usize) {
-                Some(seen) if !*seen => *seen = true,
-                _ => {
-                    return Err(crate::StorageError::Cache(format!(
-                        "invalid LRU file (broken entry links): {}",
-                        path.display()
-                    )));
+            match (entries.get(idx as usize), linked.get_mut(idx as usize)) {
+                (Some(entry), Some(seen)) if !*seen && entry.prev == prev => {
+                    *seen = true;
+                    prev = idx;
+                    idx = entry.next;
                 }
+                _ => return Err(broken_links()),
             }
-            idx = entries[idx as usize].next;
+        }
+        if header.mru_head != prev {
+            return Err(broken_links());
         }
 
         // Rebuild the key map and free list
